@@ -90,7 +90,8 @@ Definition agree_run (c : c04_case) : bool :=
   let '(o, w) := run_model c None in
   option_eqb oobs_eqb (oobs_of o) (Some (r_outcome (k_run c))) &&
   trace_eqb (rev (w_trace w)) (r_trace (k_run c)) &&
-  files_agree (w_fs w) (r_files (k_run c)) (cands c).
+  files_agree (w_fs w) (r_files (k_run c)) (cands c) &&
+  Bool.eqb (w_intruded w) (r_intruded (k_run c)).
 
 Definition agree_crash (c : c04_case) (kf : nat * files) : bool :=
   let '(k, fobs) := kf in
